@@ -637,7 +637,7 @@ def check_case(case, acc):
 
 
 def special_names(size, scheme):
-    pool = ['a"b', "c\\d", "e f", "g\nh", "é漢", 'q\\"r', "x", "\\", '"', "end\\", "a\\nb", "C:\\new\\logs\\run"]
+    pool = ['a"b', "c\\d", "e f", "g\nh", "é漢", 'q\\"r', "x", "\\", '"', "end\\", "a\\nb", "C:\\new\\logs\\run", "s\n```py\nprint(1)\n```", "~~~\n~"]
     return ["%s%d" % (pool[(i + scheme) % len(pool)], i) if scheme % 2 else "%d%s" % (i, pool[(i + scheme) % len(pool)]) for i in range(size)]
 
 
@@ -731,7 +731,7 @@ def random_cases(draw, exporters=("DotExporter", "UniqueDotExporter", "RenderTre
     if draw(st.booleans()):
         case["indent"] = draw(st.integers(0, 8))
     if draw(st.booleans()):
-        case["options"] = draw(st.lists(st.sampled_from(["rankdir=LR;", "node [shape=box];", 'label="x y";', "// note"]), max_size=3))
+        case["options"] = draw(st.lists(st.sampled_from(["rankdir=LR;", "node [shape=box];", 'label="x y";', "// note", "", "  ", "a=1;\nb=2;", "tail\r", "}", "{"]), max_size=3))
     if draw(st.booleans()):
         case["graph"] = draw(st.sampled_from(["graph", "digraph", "strict digraph"]))
         case["name"] = draw(st.sampled_from(["tree", "G", "my_graph"]))
